@@ -33,6 +33,7 @@ type rig struct {
 	dials    []string
 	remotes  []string
 	connFail map[int]string // route id -> "" | err | refused
+	last     string
 }
 
 func newRig(g *hx.Gen, nroutes int, timeoutS int64, gen func(*hx.Gen, int) *routeSpec) (*rig, error) {
@@ -133,10 +134,19 @@ func (r *rig) oneForward(g *hx.Gen, u *userConn, localAddr string, rt *routeSpec
 	got, err := u.do(rg.req, 20*time.Second)
 	if err != nil {
 		if os.Getenv("C02_DEBUG") != "" {
+			fmt.Fprintf(os.Stderr, "PREVIOUS %s\n", r.last)
+			if got != nil {
+				fmt.Fprintf(os.Stderr, "GOT %d %v bodylen=%d framing=%s\n", got.status, got.hdrs, len(got.body), got.framing)
+			}
+			if sn := r.be.waitSeen(time.Second); sn != nil {
+				fmt.Fprintf(os.Stderr, "BACKEND SAW %s %s on conn %d bodylen %d\n", sn.method, sn.target, sn.conn, len(sn.body))
+			}
+			fmt.Fprintf(os.Stderr, "SCRIPT %d %s %d %v\n", resp.status, resp.framing, len(resp.body), resp.hdrs)
 			fmt.Fprintf(os.Stderr, "FAILED %v req=%s %s framing=%s body=%d hdrs=%v\n resp=%+v\n", err, rg.req.method, rg.req.target, rg.req.framing, len(rg.req.body), rg.req.hdrs, resp.status)
 		}
 		return "", fmt.Errorf("user exchange failed: %v (%s %s)", err, rg.req.method, rg.req.target)
 	}
+	r.last = fmt.Sprintf("%s %s framing=%s body=%d -> %d %s body=%d hdrs=%v gotframing=%s", rg.req.method, rg.req.target, rg.req.framing, len(rg.req.body), resp.status, resp.framing, len(resp.body), resp.hdrs, got.framing)
 	seen := r.be.waitSeen(5 * time.Second)
 	if seen == nil {
 		return "", fmt.Errorf("backend saw nothing for %s %s (user got %d)", rg.req.method, rg.req.target, got.status)
@@ -172,7 +182,7 @@ func (r *rig) oneForward(g *hx.Gen, u *userConn, localAddr string, rt *routeSpec
 	ip, _, _ := net.SplitHostPort(localAddr)
 	beginCase()
 	cs := fmt.Sprintf("CFwd (%s) (%s) %s (%s) %s %s (%s) (%s)", coqRoute(rt, hs, rs), coqReq(rg, ip, false), S(reencQuery(rg.query)),
-		coqSeen(seen), optS(dialAddr), hx.Bool(remoteOK), coqScripted(resp, rg.req.method), coqGot(got))
+		coqSeen(seen), optS(dialAddr), hx.Bool(remoteOK), coqScripted(resp, rg.req.method), coqGotFor(got, resp))
 	cs = endCase(cs)
 	st.dist["method:"+rg.req.method]++
 	st.dist["reqbody:"+rg.req.framing+":"+bucket(len(rg.req.body))]++
@@ -280,9 +290,9 @@ func driveHTTP(cfg *hx.RunCfg) error {
 	}
 	cfg.St["cases"] = len(cases)
 	cfg.St["distinct_nontrivial"] = len(st.distinct) + len(ecases)
-	cfg.St["samples"] = st.samples
+	cfg.St["samples"] = append([]string{}, st.samples...)
 	cfg.St["distribution"] = sortedCounts(st.dist)
-	cfg.St["impl_failures"] = st.impl
+	cfg.St["impl_failures"] = append([]map[string]string{}, st.impl...)
 	return nil
 }
 
